@@ -1,6 +1,7 @@
 package main
 
 import (
+	"strconv"
 	"fmt"
 	"go/token"
 	"sort"
@@ -150,3 +151,5 @@ func dumpFlow(f *Flow) {
 }
 
 var debugProv = true
+
+func unquote(s string) (string, error) { return strconv.Unquote(s) }
